@@ -8,6 +8,7 @@ import (
 
 	"github.com/mithrandie/csvq/lib/parser"
 	"github.com/mithrandie/csvq/lib/value"
+	"github.com/mithrandie/csvq/lib/verifhook"
 )
 
 var AnalyticFunctions = map[string]AnalyticFunction{
@@ -143,10 +144,12 @@ func Analyze(ctx context.Context, scope *ReferenceScope, view *View, fn parser.A
 		}()
 
 		start, end := gm.RecordRange(thIdx)
+		verifhook.Worker("analyze", thIdx, gm.Number)
 		seqScope := scope.CreateScopeForSequentialEvaluation(view)
 
 	AnalyzeLoop:
 		for i := start; i < end; i++ {
+			verifhook.Worker("analyze", thIdx, 0)
 			if gm.HasError() {
 				break AnalyzeLoop
 			}
